@@ -1,7 +1,7 @@
 (* C11/Properties.v -- the pinned statements of property C11 and their assumptions.
    Nothing else lives here: each statement is re-stated in full with [Check ... : ...]
    so that it cannot be quietly weakened in Proofs.v. *)
-From Sophia.C11 Require Import Model Proofs ModelErr ProofsErr.
+From Sophia.C11 Require Import Model Proofs ModelErr ProofsErr ModelSeq ProofsSeq.
 
 Section Pins.
 Variable T : Type.
@@ -190,6 +190,82 @@ Check (view_victims_in_graph : forall d g sm pm om v,
   (victims d (XRemMatching g sm pm om) = Some v \/ victims d (XRetMatching g sm pm om) = Some v) ->
   forall q, In q v -> qg q = g /\ In q d).
 
+(* ---------- read errors in the MIDDLE of an enumeration (ModelSeq.v): every view relays the store's
+   sequence of Ok / Err items one for one ---------- *)
+Check (@filter_ok_oks : forall A (f : A -> bool) (l : list (item A)), oks (filter_ok f l) = filter f (oks l)).
+Check (@filter_ok_errs : forall A (f : A -> bool) (l : list (item A)), errs (filter_ok f l) = errs l).
+Check (@map_ok_oks : forall A B (f : A -> B) (l : list (item A)), oks (map_ok f l) = map f (oks l)).
+Check (@map_ok_errs : forall A B (f : A -> B) (l : list (item A)), errs (map_ok f l) = errs l).
+Check (@flat_map_ok_oks : forall A B (f : A -> list B) (l : list (item A)), oks (flat_map_ok f l) = flat_map f (oks l)).
+Check (@flat_map_ok_errs : forall A B (f : A -> list B) (l : list (item A)), errs (flat_map_ok f l) = errs l).
+Check (store_view_errs : forall own h sm pm om,
+  errs (f_triples_matching (FRoot false own) h sm pm om) = errs own).
+Check (store_view_oks : forall own h sm pm om,
+  oks (f_triples_matching (FRoot false own) h sm pm om) = hop_matching (oks own) h sm pm om).
+Check (store_view_triples_oks : forall own h, oks (f_triples (FRoot false own) h) = hop_triples (oks own) h).
+Check (store_view_app : forall a b h sm pm om,
+  f_triples_matching (FRoot false (a ++ b)) h sm pm om
+  = f_triples_matching (FRoot false a) h sm pm om ++ f_triples_matching (FRoot false b) h sm pm om).
+Check (store_view_err : forall c h sm pm om, f_triples_matching (FRoot false [IErr c]) h sm pm om = [IErr c]).
+Check (store_view_ok : forall q h sm pm om,
+  f_triples_matching (FRoot false [IOk q]) h sm pm om
+  = if triple_matches N sm pm om (qt q) && hop_g h (qg q) then [IOk (qt q)] else []).
+Check (view_continues_after_error : forall a c b h sm pm om,
+  f_triples_matching (FRoot false (a ++ IErr c :: b)) h sm pm om
+  = f_triples_matching (FRoot false a) h sm pm om ++ IErr c :: f_triples_matching (FRoot false b) h sm pm om).
+Check (nothing_lost : forall own h sm pm om q,
+  In (IOk q) own -> triple_matches N sm pm om (qt q) = true -> hop_g h (qg q) = true ->
+  In (IOk (qt q)) (f_triples_matching (FRoot false own) h sm pm om)).
+Check (nothing_invented : forall own h sm pm om t,
+  In (IOk t) (f_triples_matching (FRoot false own) h sm pm om) ->
+  exists q, In (IOk q) own /\ qt q = t /\ triple_matches N sm pm om t = true /\ hop_g h (qg q) = true).
+Check (seq_matching_is_filter : forall v h sm pm om,
+  f_triples_matching v h sm pm om = filter_ok (triple_matches N sm pm om) (f_triples v h)).
+Check (seq_quads_matching_default : forall v sm pm om gm,
+  is_adapter v = true -> gm None = false -> f_quads_matching v sm pm om gm = []).
+Check (view_oks : forall v sm pm om gm, root_default v ->
+  oks (f_quads_matching v sm pm om gm) = ds_quads_matching N (view_ds v) sm pm om gm).
+Check (seq_path_oks : forall gs own p h sm pm om,
+  root_default (FRoot gs own) ->
+  oks (f_triples_matching (mk_view (FRoot gs own) p) h sm pm om) = hop_matching (path_quads (oks own) p) h sm pm om).
+Check (seq_path_quads_oks : forall gs own p sm pm om gm,
+  root_default (FRoot gs own) ->
+  oks (f_quads_matching (mk_view (FRoot gs own) p) sm pm om gm) = ds_quads_matching N (path_quads (oks own) p) sm pm om gm).
+Check (with_plan_oks : forall pl l i, oks (with_plan_from pl i l) = l).
+Check (with_plan_nil : forall l i, with_plan_from [] i l = map IOk l).
+Check (srun_embeds : forall sk gs pl ops st p, srun sk gs pl (st, p) (map SE ops) = map SX (erun sk pl st ops)).
+Check (scase_embeds : forall sk gs pl init ops obs,
+  scase_ok sk gs pl init (map SE ops) (map SX obs) = ecase_ok sk pl init ops obs).
+Check (sseq_keeps_state : forall sk gs pl st own x, fst (sstep sk gs pl st (SSeq own x)) = st).
+
+(* non-vacuity: a store with two unreadable records, seen through a partial union, through one graph, through a
+   view of a view; a plan that puts the errors there; a view that stopped at the first error would differ *)
+Definition ex_own : list (item tq) :=
+  [IOk (mkQ (mkT 1 3 1) None); IErr 20; IOk (mkQ (mkT 2 3 1) (Some 12)); IOk (mkQ (mkT 4 3 1) (Some 13)); IErr 21;
+   IOk (mkQ (mkT 5 3 1) (Some 12))].
+Example ex_punion_relays :
+  f_triples (FRoot false ex_own) (HPUnion (GOneOf [None; Some 12]))
+  = [IOk (mkT 1 3 1); IErr 20; IOk (mkT 2 3 1); IErr 21; IOk (mkT 5 3 1)].
+Proof. reflexivity. Qed.
+Example ex_graph_relays :
+  f_triples_matching (FRoot false ex_own) (HGraph (Some 12)) (mdesc_t MAny) (mdesc_t (MOneOf [3])) (mdesc_t MAny)
+  = [IErr 20; IOk (mkT 2 3 1); IErr 21; IOk (mkT 5 3 1)].
+Proof. reflexivity. Qed.
+Example ex_view_of_view :
+  seq_eval false [] ex_own (XGObs [HPUnion (GOneOf [Some 12])] (HGraph None) GOAll)
+  = QT [IErr 20; IOk (mkT 2 3 1); IErr 21; IOk (mkT 5 3 1)]
+  /\ seq_eval false [] ex_own (XGObs [HPUnion (GOneOf [Some 12])] (HGraph (Some 1)) GOAll) = QT []
+  /\ seq_eval false [] ex_own (XGObs [] (HGraph (Some 12)) (GOContains (mkT 5 3 1))) = QErr 20
+  /\ seq_eval false [] ex_own (XGObs [] HUnion (GOContains (mkT 1 3 1))) = QFlag true.
+Proof. repeat split; reflexivity. Qed.
+Example ex_plan : with_plan [(1, 20); (3, 21)] (oks ex_own) = ex_own
+  /\ own_ok (oks ex_own) [(1, 20); (3, 21)] ex_own = true
+  /\ own_ok (oks ex_own) [(1, 20)] ex_own = false.
+Proof. repeat split; vm_compute; reflexivity. Qed.
+Example ex_truncated_differs :
+  qout_eqb (seq_eval false [] ex_own (XGObs [] (HPUnion (GOneOf [None; Some 12])) GOAll)) (QT [IOk (mkT 1 3 1); IErr 20]) = false.
+Proof. vm_compute. reflexivity. Qed.
+
 Print Assumptions union_content.
 Print Assumptions union_query_is_filter.
 Print Assumptions punion_content.
@@ -243,3 +319,28 @@ Print Assumptions failed_remove_all_only_removes.
 Print Assumptions budget_stops_insert_all.
 Print Assumptions partial_removal_effect.
 Print Assumptions view_victims_in_graph.
+Print Assumptions filter_ok_oks.
+Print Assumptions filter_ok_errs.
+Print Assumptions map_ok_oks.
+Print Assumptions map_ok_errs.
+Print Assumptions flat_map_ok_oks.
+Print Assumptions flat_map_ok_errs.
+Print Assumptions store_view_errs.
+Print Assumptions store_view_oks.
+Print Assumptions store_view_triples_oks.
+Print Assumptions store_view_app.
+Print Assumptions store_view_err.
+Print Assumptions store_view_ok.
+Print Assumptions view_continues_after_error.
+Print Assumptions nothing_lost.
+Print Assumptions nothing_invented.
+Print Assumptions seq_matching_is_filter.
+Print Assumptions seq_quads_matching_default.
+Print Assumptions view_oks.
+Print Assumptions seq_path_oks.
+Print Assumptions seq_path_quads_oks.
+Print Assumptions with_plan_oks.
+Print Assumptions with_plan_nil.
+Print Assumptions srun_embeds.
+Print Assumptions scase_embeds.
+Print Assumptions sseq_keeps_state.
